@@ -71,6 +71,11 @@ claim("C16", "E1 model + independent recogniser",
       "Grammars with nested_in (exhaustive small, shaped, random) on &[char], &str and a gapped-span mapped slice, parse and check: inner grammar sees exactly b's tokens, must match completely, outer advances by b's extent, inner emissions and inner failure surface, enclosing choices/repetitions backtrack over a failed nested parse, inspector state continues; random token trees parsed by a recursive nested_in grammar (strict and with a fallback alternative) vs an independent recogniser.",
       MODEL_NOTE + " A6: spans of errors produced inside a nested input are not compared.", "DESIGN §5 C16")
 
+claim("C18", "E1 model",
+      "runtime monitoring: reference-model monitor over inspector-state observations made at every node (map_with), in select closures, fold callbacks and zero-width probes, with a snapshot-checkpoint Inspector, on &str, &[char] and Stream",
+      "Every observation of the user state must equal the fold of exactly the tokens before the observation point (per with_state scope), the final state the fold of the whole input — across backtracking, lookahead and all recovery strategies; with_state scopes inside repetitions, abandoned alternatives, recovery, nested with_state. Exhaustive small grammars x inputs, shaped placements, random larger ones; parse and check mode (probes observe in check mode).",
+      MODEL_NOTE + " Pratt fold callbacks observing the state are part of the C09 driver.", "DESIGN §5 C18")
+
 NOT_CLAIMED = {}
 
 
